@@ -731,3 +731,22 @@ Print Assumptions page_progress_gen.
 Print Assumptions page_progress_nonempty_keys.
 Print Assumptions walk_complete_nonempty_keys.
 Print Assumptions walk_complete_as_stated_false.
+
+(* a marker at or behind every key of the bucket (the last page's own marker, one made up by the
+   client, or one handed out before the keys behind it were deleted): nothing follows it; the page
+   is empty and final *)
+Lemma sm_after_behind_all {V} (k : list N) (m : list (list N * V)) :
+  (forall kv, In kv m -> bleb (fst kv) k = true) -> sm_after k m = [].
+Proof.
+  induction m as [|[k' v'] m IH]; intros H; cbn [sm_after]; [reflexivity|].
+  pose proof (H (k', v') (or_introl eq_refl)) as Hk. cbn [fst] in Hk. rewrite Hk. apply IH.
+  intros kv Hi. apply H. right. exact Hi.
+Qed.
+
+Lemma page_marker_behind_every_key pre delim mk objs marker :
+  marker <> [] -> (forall kv, In kv objs -> bleb (fst kv) marker = true) ->
+  page pre delim mk objs marker = empty_list.
+Proof.
+  intros Hm Hall. unfold page. destruct marker as [|c m']; [contradiction|].
+  rewrite (sm_after_behind_all (c :: m') objs Hall). reflexivity.
+Qed.
